@@ -170,6 +170,9 @@ func ruleWSig(c *Ctx) {
 			if v && strings.Contains(a, "== -1)") {
 				return false
 			}
+			if !v && strings.Contains(a, "!= -1)") {
+				return false
+			}
 		}
 		return true
 	}
